@@ -21,7 +21,7 @@ import traceback
 
 import vf
 
-BUILD = dict(extracted=['worker'], translators=set())
+BUILD = dict(extracted=['worker', 'treenet'], translators={'gen_sched'})   # gen_sched: rt/TreeNet.v uses the generated routing arithmetic / manager methods
 
 D7_SIG = {'call': '_process_await', 'symptom': 'double-wake'}
 
@@ -644,8 +644,11 @@ def report(ctx, case, res, source):
 
 
 def run(ctx: vf.Ctx):
-    ctx.uses_translators = set()
+    _ph = {}
+    _t = time.time()
+    ctx.uses_translators = BUILD['translators']
     ctx.build(**BUILD)
+    _ph['build (incl. waiting for the shared lock)'] = round(time.time() - _t, 1)
     ctx.rule = ('random task trees (depth<=3, fan-out<=4, submit/map mixed with await, next, next-loops in random '
                 'order; ~12% with one API misuse), 1-4 real workers under the real DetachedServer, 1-2 roots / clients; '
                 'every event (deliver one message to a receiving thread / run a main thread to its next gate / server '
@@ -655,16 +658,22 @@ def run(ctx: vf.Ctx):
         'handlers of the receiving thread (_add_task, _handle_result, the SUBMIT/SUBMIT_BATCH branches) are atoms of the '
         'model; the main thread is split at the gates listed in harness/rtsim.py (statement level inside _process_await)',
         'cancel-free runs only: a run in which a CANCEL is emitted is outside the theorems (flag w_oos)',
-        'flat topology (workers directly under a server); managers are not modelled here',
+        'worker internals (threads, mailboxes, coroutines) are modelled for the flat topology; trees of managers are modelled at the '
+        'routing level (rt/TreeNet.v: SUBMIT/SUBMIT_BATCH/RESULT between server, managers and worker connections; '
+        'num_idle_workers and assign_tasks are oracles observed on the real nodes; UPDATE/WAITING counters are C15)',
         'coroutine mechanics, dill payloads, sockets, logging are not modelled (bodies are scripts)',
     ]
-    ctx.trusted = ['Coq 8.16.1 kernel', 'ExtrOcamlBasic extraction, OCaml 4.13.1, coq/extract/worker_driver.ml',
-                   'harness/rtsim.py (gates, fake connections) and the oracle in harness/props/c07.py',
+    ctx.trusted = ['Coq 8.16.1 kernel', 'ExtrOcamlBasic extraction, OCaml 4.13.1, coq/extract/worker_driver.ml, treenet_driver.ml',
+                   'harness/rtsim.py (gates, fake connections) and the oracle in harness/props/c07.py; harness/c07_tree.py (fake links, stub workers, oracle)',
                    'CPython threading/queue semantics; sys.settrace line events']
     cases = []
     cdir = vf.ROOT / 'corpus' / 'C07'
+    tree_corpus = []
     for f in sorted(cdir.glob('*.json')) if cdir.exists() else []:
         c = json.loads(f.read_text())
+        if c.get('kind') == 'tree':          # manager-tree routing cases: harness/c07_tree.py
+            tree_corpus.append(c)
+            continue
         c['_source'] = 'corpus/' + f.name
         cases.append(c)
     ncorpus = len(cases)
@@ -702,6 +711,16 @@ def run(ctx: vf.Ctx):
     for case, src in retry:
         bad |= report(ctx, case, run_case(case), src)
     ctx.cov['cases_run'] = done
+    _ph['worker co-simulation pool'] = round(time.time() - t0, 1)
+    _t = time.time()
+    # ---- trees of managers: rt/TreeNet.v co-simulated with REAL DetachedServer + Manager objects (harness/c07_tree.py)
+    import c07_tree
+    for c in tree_corpus:
+        bad |= bool(c07_tree.replay_tree(ctx, c))
+    ctx.cov['tree_corpus_cases'] = len(tree_corpus)
+    bad |= bool(c07_tree.run_tree(ctx, ctx.n(150, 1500)))
+    _ph['manager-tree co-simulation'] = round(time.time() - _t, 1)
+    _t = time.time()
     # ---- exhaustive exploration of the MODEL on small scenarios (all schedules, all server assignments):
     #      validates the theorems' reading of the model and searches for deadlocks (not proved in Coq)
     scen = {
@@ -730,19 +749,23 @@ def run(ctx: vf.Ctx):
                 if atomic and (int(cnt.get('double_wake', 1)) or int(cnt.get('assert_failed', 1))):
                     ctx.broken_obligation('exhaustive exploration of the atomic model contradicts C07_wake_once', line)
     ctx.cov['exhaustive_small_scenarios'] = expl
+    _ph['exhaustive model exploration'] = round(time.time() - _t, 1)
+    ctx.cov['phase_wall_s'] = _ph
     ctx.cov['corpus_cases'] = ncorpus
     ctx.cov['theorem_coverage'] = dict(
         proved=['C07_task_conservation (both variants)', 'C07_slot_values (both variants; await complete and in argument order, next values, client root result)',
                 'C07_next_batches (+_complete)', 'C07_result_deposited_once', 'C07_wake_once (atomic registration)',
                 'C07_no_deadlock_partial (no lost wake-up, atomic registration)',
                 'C07_get_new_results_split_complete / _copy_refuted (statement-level get_new_results vs deposits)',
-                'C07_wake_once_refuted (code as it is: D7)'],
+                'C07_wake_once_refuted (code as it is: D7)',
+                'C07_tree_result_routing / _conservation / _hops_decrease / _drain_bounded / _progress (any well-formed tree of managers)'],
         not_proved=['C07_no_deadlock_full (Definition; the global descent is missing; oracle + exhaustive model exploration of 4 small scenarios)'],
         correspondence_only=['server relay (schedule_tasks/send_result_down observed, assignment replayed)'],
-        uncovered=['manager topology', 'cancellation (C12)', 'statement interleavings inside receiving-thread handlers',
+        uncovered=['worker internals under a manager tree (the two models are not composed)', 'cancellation (C12)', 'statement interleavings inside receiving-thread handlers',
                    'COMMUNICATE / LOG / IMPORTPATH messages'])
     if (ctx.broken or bad) and ctx.broken:
         # something no longer checks: search harder with the directed policy
+        c07_tree.run_tree(ctx, 600)
         extra = make_cases(ctx, 300)
         for c in extra:
             c['fine'], c['policy'] = True, 'd7'
@@ -753,6 +776,9 @@ def run(ctx: vf.Ctx):
 
 def replay(ctx, data):
     case = dict(data['case'])
+    if case.get('kind') == 'tree':
+        import c07_tree
+        return c07_tree.replay_tree(ctx, case)
     src = case.pop('source', 'replay')
     res = run_case(case)
     report(ctx, case, res, src)
